@@ -559,6 +559,14 @@ def eval_cond(e: ast.AST, env: dict, func=None) -> bool | None:
         l, r = e.left, e.comparators[0]
         if isinstance(l, ast.NamedExpr):
             l = l.value
+        # explicit emptiness tests are the truthiness of the collection: len(x) > 0, len(x) != 0, len(x) >= 1 / len(x) == 0, len(x) < 1
+        if isinstance(l, ast.Call) and isinstance(l.func, ast.Name) and l.func.id == "len" and len(l.args) == 1 and isinstance(r, ast.Constant) and r.value in (0, 1) \
+                and not isinstance(r.value, bool):
+            nonempty = {(ast.Gt, 0): True, (ast.NotEq, 0): True, (ast.GtE, 1): True, (ast.Eq, 0): False, (ast.Lt, 1): False, (ast.LtE, 0): False}.get((op, r.value))
+            if nonempty is not None:
+                v = eval_cond(l.args[0], env, func)
+                if v is not None:
+                    return v if nonempty else (not v)
         lt, rt = atom_text(l), atom_text(r)
         for (a, b, flip) in ((lt, rt, False), (rt, lt, True)):
             o = env.get(("ord", a, b))
